@@ -248,6 +248,56 @@ def loop_suite(run, selftest=False):
         run.stages.append({"stage": "binding-selftest", "spec": "Trace_Loop", "corruptions_rejected": 1})
 
 
+def registry_stress(run, n, answers, seed):
+    """RoutedById at a scale the full model cannot afford: one flat program with n one-shot requests through both
+    bridges, answered in a seeded random order; the trace is validated against Registry.tla (ids stay bound to
+    the request they were handed out for, answers reach the task that asked, occupancy = entries still needed)"""
+    import random
+    rng = random.Random(seed)
+    cs, tids, nid = [], [], 10
+    for i in range(n):
+        cs.append({"tid": nid, "c": {"k": "chain", "id": nid + 1, "tid": nid + 2, "root": {"k": "req", "tag": 1, "val": 1},
+                                     "stages": [], "sink": {"tag": 2}}})
+        tids.append(nid + 2)
+        nid += 3
+    prog = {"k": "all", "id": 1, "tid": 2, "cs": cs}
+    order = tids[:]
+    rng.shuffle(order)
+    # a second wave after the first has been (mostly) answered: new registrations while old ids are still out
+    steps = [{"a": "run", "p": 0}] + [{"a": "resolve", "o": [1, t, 0], "val": 1} for t in order[:answers]]
+    steps += [{"a": "run", "p": 1}]
+    rest = order[answers:] + [None] * 0
+    steps += [{"a": "resolve", "o": [1, t, 0], "val": 2} for t in rest]
+    small = {"k": "all", "id": 1, "tid": 2, "cs": cs[:40]}
+    steps += [{"a": "resolve", "o": [answers + 2, t, 0], "val": 3} for t in tids[:40]]
+    for host in ("bridge_bin", "bridge_json"):
+        cp, tp = run.path(f"reg_{host}.cases"), run.path(f"reg_{host}.trace")
+        with open(cp, "w") as f:
+            f.write(json.dumps({"name": f"registry-{host}", "host": host, "progs": [prog, small], "follow": {}, "steps": steps}) + "\n")
+        lib.run_harness(cp, tp)
+        # the registry listing of every line is replaced by its size; every effect gets the arity stored for it
+        slim = tp + ".slim"
+        with open(slim, "w") as f:
+            for l in open(tp):
+                d = json.loads(l)
+                if d.get("e") == "panic":
+                    run.violation("Trace_Registry", [l.strip()], 1, f"registry[{n}]@{host}")
+                    break
+                if "reg" in d:
+                    kinds = {x["id"]: x["kind"] for x in d["reg"]}
+                    d["regn"] = len(d.pop("reg"))
+                    for e in d.get("effs", []):
+                        e["kind"] = kinds.get(e["id"], "absent")
+                d.pop("alive", None)
+                if d.get("e") == "case":
+                    d = {"e": "case", "name": d["name"]}
+                if d.get("e") == "end":
+                    d = {"e": "end", "drop_ok": d["drop_ok"]}
+                f.write(json.dumps(d, separators=(",", ":")) + "\n")
+        lib.validate_simple(run, "Trace_Registry", slim, marker='"e":"case"', label=f"registry[{n} outstanding]@{host}")
+        os.remove(slim)
+
+
 def loop_harness(run, name, seed, n):
     """the same validation of run_all on a random round of the harness under the executor-backed hosts
     (Core with the command API and with the capability API, AppTester, the bincode bridge)"""
@@ -362,6 +412,8 @@ def c02(run):
                   cap=2000 if q else 20000)
     random_round(run, "arity", run.seed, 800 if q else 8000, ["direct", "core", "bridge_bin", "bridge_json"],
                  "mixed", 2, 20, selftest=True)
+    # look-alike requests by the thousand through both bridges: an answer under an id reaches the task that asked
+    registry_stress(run, 1300 if q else 4000, 1100 if q else 3600, run.seed)
     report_known(run)
 
 
@@ -424,6 +476,9 @@ def c09(run):
     mc_and_replay(run, "cmd1", 5 if q else 6, ["AritySafe"], ["bridge_bin", "bridge_json"], cap=2000 if q else 20000)
     random_round(run, "bridge", run.seed, 1200 if q else 12000, ["bridge_bin", "bridge_json"], "mixed", 3, 22,
                  selftest=True)
+    # the registry on its own (Registry.tla), with more requests outstanding than the full model can afford:
+    # ids stay bound to the request they were handed out for, answers resume exactly that request
+    registry_stress(run, 1300 if q else 4000, 1100 if q else 3600, run.seed + 1)
     report_known(run)
 
 
